@@ -867,6 +867,7 @@ class StateEngine(object):
                 "status": "RUNNING",
                 "stopDate": None,
             }
+            self.executions.set_ttl(execution_arn, self.execution_ttl)
             self.execution_history[execution_arn] = []
 
         history = self.execution_history[execution_arn]
